@@ -1,5 +1,5 @@
 """C01 - SM simfile: serialize then parse gives back the same simfile (structural clauses)."""
-from ..rules import readers, serial
+from ..rules import readers, serial, writers
 
 EXPLANATION = (
     "Static rule checking (ast + CFG/dominance + constant evaluation) of the structural conditions the SM round trip "
@@ -20,7 +20,7 @@ def c1(ctx):
 
 
 def c3(ctx):
-    serial.writer_item_loop(ctx, serial.BASE_SERIALIZE, notes_exempt=False)
+    writers.base_items(ctx)
     readers.sm_simfile_table(ctx, raw_key_ok=True)
 
 
